@@ -125,9 +125,11 @@ def run_component(pid, tier, seed, driver, trace_module, trace_cfg, mc_runs, neg
     extra = None
     if extra_forests and not v.machinery:
         # traces recorded from real runs of the whole pipeline, judged by the same trace specification
-        files2, extra = extra_forests(out_dir, tier, v)
+        r2 = extra_forests(out_dir, tier, v)
+        files2, extra = r2[0], r2[1]
+        module2, cfg2, sig2 = (r2[2], r2[3], r2[4]) if len(r2) > 2 else (trace_module, trace_cfg, sig_fn)
         files2 = [(os.path.abspath(f), n) for f, n in files2]
-        tot2 = validate_forests(files2, trace_module, trace_cfg, v, sig_fn, workers_per=workers_per, parallel=parallel)
+        tot2 = validate_forests(files2, module2, cfg2, v, sig2, workers_per=workers_per, parallel=parallel)
         extra["trace_tree_nodes"] = tot2["nodes"]
         extra["trace_states"] = tot2["states"]
         extra["violating_nodes"] = len(tot2["bad"])
@@ -156,7 +158,7 @@ def run_component(pid, tier, seed, driver, trace_module, trace_cfg, mc_runs, neg
     if extra_cov:
         cov.update(extra_cov)
     if extra is not None:
-        cov["real_analyses"] = extra
+        cov[extra.pop("_key", "real_analyses")] = extra
     C.write_evidence(pid, tier, seed, "model_checking", cov, time.time() - t0, violations=len(v.unlisted),
                      assumptions=assumptions)
     print("%s: %d tree nodes, %d TLC states, %d violating, %d drift, %.1fs" % (
